@@ -189,6 +189,26 @@ def cumsum {α : Type} [Add α] (a : Arr α) (axis : Int) := accumulate (· + ·
 /-- `view::cumprod(a, axis)` = `accumulate(multiply_t{}, a, axis)` -/
 def cumprod {α : Type} [Mul α] (a : Arr α) (axis : Int) := accumulate (· * ·) a axis
 
+/-- `view::mean(array, axis, dtype, keepdims)` over abstract element operations:
+    `m_axis = unwrap(normalize_axis(axis, dim))`, `divisor = mean_divisor(shape, m_axis)`,
+    `divide(reduce_add(array, m_axis, dtype, None, keepdims), divisor)` (the normalised axis is normalised again
+    inside reduce).  `divn x n` stands for `x / n` in the promoted element type. -/
+def mean {α : Type} (add : α → α → α) (divn : α → Nat → α) (a : Arr α) (axis : AxisArg) (keep : Bool) :
+    Option (Arr (Option α)) :=
+  match unwrapAxes a.shape.length axis with
+  | none => none
+  | some ax =>
+    match meanDivisor a.shape ax, reduce add none a (ax.map (fun l => l.map Int.ofNat)) keep with
+    | some n, some v => some ⟨v.shape, fun j => (v.get j).map (fun x => divn x n)⟩
+    | _, _ => none
+
+/-- `view::vector_norm(array, axis, keepdims, ord)` over abstract element operations:
+    `power(sum(power(fabs(array), ord), axis, None, None, keepdims), 1/ord)`;
+    `pre = x ↦ |x|^ord`, `post = y ↦ y^(1/ord)` -/
+def vectorNorm {α : Type} (add : α → α → α) (pre post : α → α) (a : Arr α) (axis : AxisArg) (keep : Bool) :
+    Option (Arr (Option α)) :=
+  (reduce add none (a.map pre) axis keep).map (fun v => ⟨v.shape, fun j => (v.get j).map post⟩)
+
 /-! ## SPEC (NumPy) -/
 
 /-- NumPy accepts axis entry `a` for rank `ndim` -/
